@@ -115,6 +115,13 @@ def answer (line : String) : String :=
       let p := BinomialProblem.timesMonomial a b c
       s!"ok={p.ok} like=false " ++ " ".intercalate ("toks" :: p.toks.map Tok.toWire)
     | _, _, _ => "bad-op"
+  | "cloneheap" :: rest => withShape rest fun t =>
+      let base := t.ids.foldl max 0 + 1
+      match t.rootId with
+      | some a =>
+        let (h, r, next) := (Heap.ofCells (t.toCells none)).clone (t.depth + 1) a base
+        s!"root {r} next {next} cells {cellsToWire h ((List.range (next - base)).map (· + base))} orig {cellsToWire h t.ids}"
+      | none => "empty"
   | "eval" :: rest => withTree rest fun t env => (eval (envOfWire env) t).toWire
   | _ => "bad-op"
 
